@@ -1267,6 +1267,8 @@ func c19Oracle(c *oracleCtx) {
 // ---------------------------------------------------------------------------
 // C15: async variants under whatever schedules the runtime produces (bounded; no schedule control)
 
+var finishOrderPatience = 10 * time.Second
+
 func c15Oracle(c *oracleCtx) {
 	c.rule = "ForEachAsync / MapAsync on containers of size 0..9 under GOMAXPROCS 1, 2, 8 with callbacks that yield, repeated; invocation multiset, completion before return, MapAsync == Map; concurrent read-only calls on a shared container; ForEachAsync under every finishing order of the callbacks for n <= 4"
 	reps := 30
@@ -1529,7 +1531,8 @@ func c15Oracle(c *oracleCtx) {
 					}()
 					select {
 					case <-ret:
-					case <-time.After(3 * time.Second):
+					case <-time.After(finishOrderPatience):
+						finishOrderPatience = time.Second // a loaded machine is given 10 s once; later cases of a blocked implementation cost 1 s each
 						return fmt.Sprintf("%s ForEachAsync does not complete under the schedule in which the callbacks finish in the order %v (a callback was not started while another was delayed)", side, order)
 					}
 					mu.Lock()
